@@ -512,7 +512,7 @@ def gen_case(kind):
 
 def line_case(ctx, k):
     """1-D: continuity at the shared vertices (no InteriorFacetBasis in 1-D)."""
-    recs = [r for r in records_with_claim("line") if not r.name.startswith("Vector(")]  # scalar records: same code path
+    recs = [r for r in records_with_claim("line") if not r.name.startswith(("Vector(", "Composite("))]  # scalar records
     rec = recs[k % len(recs)]
     rng = ctx.rng()
     if rec.family == "global":
